@@ -157,7 +157,8 @@ def run(chk, prop=PID):
     chk.extra["known_class_findings"] = stats["findings_in_known_classes"]
     chk.extra["model_correspondence"] = {"agree": agree, "disagree": bad,
                                          "formats": ["covdir (tree, stats, percent, arrays)", "coveralls", "coveralls+", "markdown", "cobertura (class lines, totals, rates)",
-                                                     "html (rows, file/dir/global stats, coverage.json, badges)", "lcov (summaries)", "files"]}
+                                                     "html (rows, file/dir/global stats, coverage.json, badges)", "lcov (summaries)", "files",
+                                                     "ade (method / file / orphan records: exact line lists and totals)"]}
     chk.sample({"result_set": cases[3]["results"], "types": G.TYPES}, limit=1)
     chk.cov["rule"] = ("generated result sets (0-6 files; relative, nested, root-level and absolute paths; 0-24 lines per file from 1..200 with counts from the boundary pool "
                        "{0,1,2^32-1,2^32,2^32+1,2^53+1,2^63-1,2^63,2^63+1,2^64-2,2^64-1} and random 64-bit values; branch vectors of 1-6 outcomes on counted and on "
